@@ -69,7 +69,10 @@ def translatorEnd (stream : Bool) (run : List Ev × Result) : TranslatorEnd :=
   match run.2 with
   | .served _ => (match clientStatus run.1 with | some (_, s, _) => .answered s | none => .answered 200)
   | .noEndpoints => .rejected
-  | _ => if stream then .proxyErrorAfterStart else .proxyErrorBeforeStart
+  | _ =>
+    -- buffered route: the recorder holds everything back, so any proxy error is reported (writeTranslatorError);
+    -- streaming route: reported only if the proxy gave up before any backend answered (`headerWritten` false)
+    if stream && (clientStatus run.1).isSome then .proxyErrorAfterStart else .proxyErrorBeforeStart
 
 /-- Contribution of one run to [collector ok, failed, engine total, ok, failed, translator ok, failed] ++ per endpoint [ok, failed]. -/
 def contribution (vs : Variants) (eps : List EpSpec) (route : String) (run : List Ev × Result) : List Int :=
